@@ -204,6 +204,8 @@ type Peer struct {
 	conns         []net.Conn     // every logical connection opened (non-mux mode: separate transports)
 	raws          []*simnet.Conn // every transport connection dialled
 	q             *peerQuic
+	cmu           sync.Mutex
+	dropped       bool // Drop was called: the peer is gone and opens nothing any more
 }
 
 func (p *Peer) extra() []net.Conn {
@@ -271,6 +273,14 @@ func (p *Peer) rawConn() (net.Conn, error) {
 
 // Connect returns a new logical connection to the server: a mux stream if Mux, else a new transport connection.
 func (p *Peer) Connect() (net.Conn, error) {
+	p.mu.Lock()
+	gone := p.dropped
+	p.mu.Unlock()
+	if gone {
+		// (a request of the server that was still in flight when the peer went away must not bring it back: a
+		// transport opened now would belong to nobody and stay open for the rest of the run)
+		return nil, fmt.Errorf("peer %s has gone away", p.Name)
+	}
 	if p.Opts.QUIC {
 		c, err := p.quicConnect()
 		if err == nil {
@@ -289,6 +299,10 @@ func (p *Peer) Connect() (net.Conn, error) {
 		}
 		return c, err
 	}
+	// one transport per peer: a second caller waits for the first one's session instead of dialling its own
+	// (whose session would replace the first in p.sess and leave the first transport open for ever)
+	p.cmu.Lock()
+	defer p.cmu.Unlock()
 	if p.sess == nil || p.sess.IsClosed() {
 		c, err := p.rawConn()
 		if err != nil {
@@ -584,6 +598,9 @@ func (p *Peer) ServerGone() bool {
 }
 
 func (p *Peer) Drop() {
+	p.mu.Lock()
+	p.dropped = true
+	p.mu.Unlock()
 	p.quicDrop()
 	if p.sess != nil {
 		p.sess.Close()
